@@ -4,12 +4,12 @@ From DV Require Import Base.Tactics Model.C17 Proofs.C17.
 From G Require Import C17_gen.
 Open Scope Z_scope.
 
-Definition gen_unet2d (L : nat) : list sop := unet_prog gen_cat_idx2 L.
-Definition gen_normunet2d (L : nat) : list sop := padded_prog gen_nu_lo gen_nu_hi gen_nu_start gen_nu_stop (unet_prog gen_cat_idx2 L).
+Definition gen_unet2d (L : nat) : list sop := gen_unet2d_layers L.
+Definition gen_normunet2d (L : nat) : list sop := padded_prog gen_nu_lo gen_nu_hi gen_nu_start gen_nu_stop (gen_unet2d_layers L).
 Definition gen_mwcnn (sc : nat) : list sop := mwcnn_prog gen_mw_pad_idx sc.
 Definition gen_didn (D R : nat) : list sop := didn_prog gen_dub_pad_idx D R.
 Definition gen_unet3d (L : nat) : list sop :=
-  padded_prog (gen_p2_lo (Z.of_nat L)) (gen_p2_hi (Z.of_nat L)) (gen_p2_start (Z.of_nat L)) (gen_p2_stop (Z.of_nat L)) (unet_prog gen_cat_idx3 L).
+  padded_prog (gen_p2_lo (Z.of_nat L)) (gen_p2_hi (Z.of_nat L)) (gen_p2_start (Z.of_nat L)) (gen_p2_stop (Z.of_nat L)) (gen_unet3d_layers L).
 Definition gen_normunet3d (L : nat) : list sop := padded_prog gen_nu3_lo gen_nu3_hi gen_nu3_start gen_nu3_stop (gen_unet3d L).
 
 Definition show_trace (t : option (list Z) * list (list Z)) : bool * list Z * list (list Z) :=
